@@ -42,6 +42,30 @@ BEHAVIOUR_PRESERVING += [
  ('bp_select_cap_loop_instead_of_zip', [('plonky2/src/recursion/conditional_recursive_verifier.rs', '        MerkleCapTarget(\n            cap0.0\n                .iter()\n                .zip_eq(&cap1.0)\n                .map(|(h0, h1)| self.select_hash(b, *h0, *h1))\n                .collect(),\n        )', '        let mut out = Vec::new();\n        for i in 0..cap0.0.len() {\n            out.push(self.select_hash(b, cap0.0[i], cap1.0[i]));\n        }\n        MerkleCapTarget(out)')], ['C20'], None),
 ]
 
+# ---- third batch: rules added after the round-2 seeds
+M += [
+ ('r2_set_extension_targets_guard_removed', [('plonky2/src/iop/witness.rs', '        if ets.len() < values.len() {\n            return Err(anyhow!(\n                "extension targets length is less than the values length: surplus values would be dropped"\n            ));\n        }\n', '')], ['C06'], 'R06.7'),
+ ('r2_steps_guard_wrong_direction', [('plonky2/src/fri/witness_util.rs', '        if qt.steps.len() < q.steps.len() {', '        if q.steps.len() < qt.steps.len() {')], ['C06'], 'R06.7'),
+ ('r2_d8_fix_reverted', [('starky/src/verifier.rs', '        stark.num_quotient_polys(config) > 0 && quotient_polys.len() == stark.num_quotient_polys(config)', '        quotient_polys.len() == stark.num_quotient_polys(config)')], ['C18'], 'R18.6'),
+ ('r2_reader_partial_products_plus_one_dropped', [('plonky2/src/util/serialization/mod.rs', '                * (1 + common_data.num_partial_products + common_data.num_lookup_polys)', '                * (common_data.num_partial_products + common_data.num_lookup_polys)')], ['C17'], 'R17.5'),
+ ('r2_reader_opening_len_wrong_field', [('plonky2/src/util/serialization/mod.rs', '        let plonk_sigmas = self.read_field_ext_vec::<F, D>(config.num_routed_wires)?;', '        let plonk_sigmas = self.read_field_ext_vec::<F, D>(config.num_wires)?;')], ['C17'], 'R17.5'),
+ ('r2_circuit_pow_uses_outer_config', [('plonky2/src/recursion/recursive_verifier.rs', '                &inner_common_data.fri_params,', '                &self.config.fri_config.fri_params(inner_common_data.fri_params.degree_bits, false),')], ['C06'], 'R06.6'),
+ ('r2_observe_cap_only_first_entry', [('plonky2/src/iop/challenger.rs', '        for &hash in &cap.0 {\n            self.observe_hash::<OH>(hash);\n        }', '        for &hash in cap.0.iter().take(1) {\n            self.observe_hash::<OH>(hash);\n        }')], ['C04'], 'R04.6'),
+ ('r2_keccak_hash_or_noop_raw_repr', [('plonky2/src/plonk/config.rs', '.copy_from_slice(&inputs[i].to_canonical_u64().to_le_bytes());', '.copy_from_slice(&inputs[i].to_noncanonical_u64().to_le_bytes());')], ['C12'], 'R12.5'),
+ ('r2_prover_squeezes_one_more_alpha', [('plonky2/src/plonk/prover.rs', '    let alphas = challenger.get_n_challenges(num_challenges);', '    let alphas = challenger.get_n_challenges(num_challenges + 1);')], ['C04'], 'R04.3'),
+]
+BEHAVIOUR_PRESERVING += [
+ ('bp_set_cap_target_zip_eq', [('plonky2/src/iop/witness.rs', '        for (ht, h) in ct.0.iter().zip(&value.0) {', '        for (ht, h) in ct.0.iter().zip_eq(&value.0) {')], ['C06'], None),
+ ('bp_steps_guard_reversed_operands', [('plonky2/src/fri/witness_util.rs', '        if qt.steps.len() < q.steps.len() {', '        if q.steps.len() > qt.steps.len() {')], ['C06'], None),
+ ('bp_reader_len_respelled', [('plonky2/src/util/serialization/mod.rs', '            config.num_challenges\n                * (1 + common_data.num_partial_products + common_data.num_lookup_polys)\n                + salt,', '            common_data.num_lookup_polys * config.num_challenges\n                + salt\n                + (common_data.num_partial_products + 1) * config.num_challenges,')], ['C17'], None),
+ ('bp_reader_len_via_helpers', [('plonky2/src/util/serialization/mod.rs', '            config.num_challenges\n                * (1 + common_data.num_partial_products + common_data.num_lookup_polys)\n                + salt,', '            common_data.num_zs_partial_products_polys() + common_data.num_all_lookup_polys() + salt,')], ['C17'], None),
+ ('bp_is_routable_respelled', [('plonky2/src/iop/wire.rs', '        self.column < config.num_routed_wires', '        !(self.column >= config.num_routed_wires)')], ['C02'], None),
+ ('bp_nb_dummy_respelled_in_prover', [('starky/src/prover.rs', '        core::cmp::min(num_extension_powers + 1, total_num_dummy_extension_evals);', '        core::cmp::min(total_num_dummy_extension_evals, 1 + num_extension_powers);')], ['C09'], None),
+ ('bp_d8_fix_at_use_site', [('starky/src/verifier.rs', '        stark.num_quotient_polys(config) > 0 && quotient_polys.len() == stark.num_quotient_polys(config)', '        !quotient_polys.is_empty() && quotient_polys.len() == stark.num_quotient_polys(config)')], ['C18', 'C09'], None),
+ ('bp_pow_witness_absorbed_in_helper', [('plonky2/src/fri/challenges.rs', '        self.observe_element(pow_witness);\n        let fri_pow_response = self.get_challenge();', '        self.observe_elements(&[pow_witness]);\n        let fri_pow_response = self.get_challenge();')], ['C04'], None),
+ ('bp_validator_len_respelled', [('plonky2/src/plonk/validate_shape.rs', '    ensure!(partial_products.len() == config.num_challenges * common_data.num_partial_products);', '    ensure!(common_data.num_partial_products * config.num_challenges == partial_products.len());')], ['C17', 'C18', 'C03'], None),
+]
+
 def run(name, subs, checks):
     args = [os.path.join(V, 'selftest', 'mutrun.py')]
     for f, o, n in subs:
